@@ -449,6 +449,45 @@ func run(r *mon.Run) {
 				}
 			}
 		}
+		// (2c) the same consistent overrun in a file that also has an unknown section (at every position, of U bytes): the
+		// bytes claimed past the end of the input are no more there because some other section is U bytes long
+		if n := len(s.Exchanges); n > 0 && (bi%3 == 0 || r.Thorough) {
+			last := n - 1
+			for _, U := range []int{8, 200, 70000} {
+				for pos := 0; pos < len(s.DefaultOrder()); pos++ {
+					order := s.DefaultOrder()
+					t := *s
+					t.SectionOrder = append(append(append([]string{}, order[:pos]...), "x-filler"), order[pos:]...)
+					t.Raw = map[string][]byte{"x-filler": bytes.Repeat([]byte{0x5a}, U)}
+					_, fs := t.Build(nil)
+					var lenRole, respSecRole string
+					var respSec rbundle.Field
+					for _, f := range fs {
+						if f.Ex == last && strings.HasPrefix(f.Role, "index-len") {
+							lenRole = f.Role
+						}
+						if strings.HasPrefix(f.Role, "seclen[responses#") {
+							respSecRole, respSec = f.Role, f
+						}
+					}
+					bodyRole := fmt.Sprintf("resp-body-bstr[%d]", last)
+					bodyF, _ := rbundle.FieldByRole(fs, bodyRole)
+					lenF, _ := rbundle.FieldByRole(fs, lenRole)
+					for _, k := range []uint64{1, uint64(U) / 2, uint64(U) - 1, uint64(U), uint64(U) + 1} {
+						caseNo++
+						if k == 0 || !r.Mine(caseNo) {
+							continue
+						}
+						ov := map[string]rbundle.Ov{respSecRole: {Val: respSec.True + k, Info: -1}, lenRole: {Val: lenF.True + k, Info: -1}, bodyRole: {Val: bodyF.True + k, Info: -1}}
+						x, _ := t.Build(ov)
+						judge(r, x, "overrun-beside-unknown-section", fmt.Sprintf("%s/U=%d/at%d/k=%d", name, U, pos, k), false, 53)
+						if len(x) > 9 {
+							judge(r, x[:len(x)-9], "overrun-beside-unknown-section", fmt.Sprintf("%s/U=%d/at%d/k=%d/no-trailer", name, U, pos, k), false, 53)
+						}
+					}
+				}
+			}
+		}
 		// (2b) two cooperating fields: an index entry whose offset is "negative" (2^64-k) and whose length
 		// makes offset+length wrap back into range, so that it designates the k bytes in front of the
 		// responses section - which a decoy unknown section fills with a complete response item.
